@@ -3,7 +3,7 @@
 # run the property's quick check, expect exit 1 with a VIOLATION line, and always restore /repo. Prints one line per change.
 # Never run this while other checks are running (they build from /repo's working tree).
 cd /verif
-names="$@"; [ -z "$names" ] && names=$(ls seeded)
+names="$@"; [ -z "$names" ] && names=$(cd seeded && ls -d */ | tr -d /)
 rc_all=0
 for n in $names; do
   id=${n%%-*}
